@@ -168,4 +168,71 @@ vpv_native!(c45_dlq_entries_readable, "C45/DeadLetterQueue::write + write_batch/
     let _ = std::fs::remove_dir_all(&dir);
     ok
 });
-vpv_replay_table!(c45_opens_after_exactly_threshold, c45_new, c45_allow_request, c45_record_success, c45_record_failure, c45_single_probe, c45_dlq_entries_readable);
+
+// ---- ResilientSink::send / send_batch (async trait object + breaker + DLQ): BOUNDED STAND-IN (native enumeration).
+// A scripted downstream (each call succeeds or fails as the script says) behind the real ResilientSink, the real breaker (threshold 1 or 2, reset timeout 0 or
+// one hour) and a real dead-letter queue file; every script of <= 5 calls over {send ok, send fail, batch(0) , batch(2) ok, batch(2) fail}:
+//  (1) every event handed over is delivered downstream or written to the queue, never both, never lost;
+//  (2) between calls the breaker is never left half-open (the probe it admitted has completed);
+//  (3) with reset timeout 0 a successful call always leaves the breaker closed.
+#[cfg(vpv_replay)]
+pub struct C45Scripted { pub script: std::sync::Mutex<Vec<bool>>, pub delivered: std::sync::atomic::AtomicU64 }
+#[cfg(vpv_replay)]
+#[async_trait::async_trait]
+impl crate::sink::Sink for C45Scripted {
+    fn name(&self) -> &str { "scripted" }
+    async fn send(&self, _event: &crate::event::Event) -> anyhow::Result<()> {
+        let ok = self.script.lock().unwrap().pop().unwrap_or(true);
+        if ok { self.delivered.fetch_add(1, std::sync::atomic::Ordering::Relaxed); Ok(()) } else { Err(anyhow::anyhow!("downstream \"refused\"")) }
+    }
+    async fn send_batch(&self, events: &[std::sync::Arc<crate::event::Event>]) -> anyhow::Result<()> {
+        let ok = self.script.lock().unwrap().pop().unwrap_or(true);
+        if ok { self.delivered.fetch_add(events.len() as u64, std::sync::atomic::Ordering::Relaxed); Ok(()) } else { Err(anyhow::anyhow!("downstream batch refused")) }
+    }
+    async fn flush(&self) -> anyhow::Result<()> { Ok(()) }
+    async fn close(&self) -> anyhow::Result<()> { Ok(()) }
+}
+vpv_native!(c45_resilient_sink, "C45/ResilientSink::send + send_batch/every event is delivered or queued exactly once; the breaker is never left half-open between calls; a success at reset timeout 0 closes it (native enumeration: scripts of <= 5 calls over 5 call kinds x thresholds 1, 2 x reset timeout 0 / 1 h)", {
+    use crate::sink::Sink;
+    let rt = tokio::runtime::Builder::new_current_thread().enable_all().build().unwrap();
+    let dir = std::env::temp_dir().join(format!("vpv-c45-rs-{}", std::process::id()));
+    let _ = std::fs::create_dir_all(&dir);
+    let mut ok = true; let mut shown = 0; let mut n = 0u64;
+    // call kinds: 0 send/ok  1 send/fail  2 empty batch (downstream would succeed)  3 batch of 2/ok  4 batch of 2/fail
+    for len in 0..=5usize { for code in 0..5usize.pow(len as u32) { for threshold in [1u32, 2] { for timeout_s in [0u64, 3600] {
+        let mut calls = Vec::new(); let mut c = code; for _ in 0..len { calls.push(c % 5); c /= 5; }
+        n += 1;
+        let good = vpv_enum_try(|| format!("calls={:?} (0 send ok, 1 send fail, 2 empty batch, 3 batch(2) ok, 4 batch(2) fail) threshold={} reset_timeout={}s", calls, threshold, timeout_s), || {
+            let path = dir.join(format!("q-{}.jsonl", n)); let _ = std::fs::remove_file(&path);
+            let dlq = std::sync::Arc::new(crate::dead_letter::DeadLetterQueue::open(&path).unwrap());
+            let cb = std::sync::Arc::new(CircuitBreaker::new(CircuitBreakerConfig { failure_threshold: threshold, reset_timeout: Duration::from_secs(timeout_s) }));
+            // the script is popped from the back: one entry per downstream call, in call order
+            let script: Vec<bool> = calls.iter().rev().map(|k| matches!(k, 0 | 2 | 3)).collect();
+            let down = std::sync::Arc::new(C45Scripted { script: std::sync::Mutex::new(Vec::new()), delivered: std::sync::atomic::AtomicU64::new(0) });
+            let rs = crate::sink::ResilientSink::new(down.clone(), cb.clone(), Some(dlq.clone()));
+            let _ = script;
+            let mut handed = 0u64;
+            for k in &calls {
+                // the downstream answer for THIS call, used only if the breaker lets the call through
+                *down.script.lock().unwrap() = vec![matches!(k, 0 | 2 | 3)];
+                let before_state = cb.state();
+                let res = match k {
+                    0 | 1 => { handed += 1; rt.block_on(rs.send(&crate::event::Event::new("E"))) }
+                    2 => rt.block_on(rs.send_batch(&[])),
+                    _ => { handed += 2; let evs = vec![std::sync::Arc::new(crate::event::Event::new("E")), std::sync::Arc::new(crate::event::Event::new("E"))]; rt.block_on(rs.send_batch(&evs)) }
+                };
+                if cb.state() == State::HalfOpen { println!("  breaker left half-open after call kind {} (state before the call: {:?})", k, before_state); return false; }
+                if res.is_ok() && timeout_s == 0 && cb.state() != State::Closed { println!("  successful call kind {} left the breaker {:?}", k, cb.state()); return false; }
+            }
+            let delivered = down.delivered.load(std::sync::atomic::Ordering::Relaxed);
+            let queued = dlq.count();
+            let _ = std::fs::remove_file(&path);
+            if delivered + queued != handed { println!("  handed {} events: delivered {}, queued {}", handed, delivered, queued); }
+            delivered + queued == handed
+        });
+        if !good { ok = false; shown += 1; if shown >= 3 { let _ = std::fs::remove_dir_all(&dir); return false; } }
+    } } } }
+    let _ = std::fs::remove_dir_all(&dir);
+    ok
+});
+vpv_replay_table!(c45_opens_after_exactly_threshold, c45_new, c45_allow_request, c45_record_success, c45_record_failure, c45_single_probe, c45_dlq_entries_readable, c45_resilient_sink);
